@@ -519,6 +519,18 @@ impl ByteArrayDecoderDeltaLength {
 
         if self.validate_utf8 {
             output.check_valid_utf8(initial_values_length)?;
+            // The values were copied as one contiguous run: a character must not straddle
+            // two values, so every value has to start at a character boundary
+            let values = output.values.as_slice();
+            let mut start = initial_values_length;
+            for length in src_lengths {
+                if start < values.len() && (values[start] as i8) < -0x40 {
+                    return Err(ParquetError::General(
+                        "encountered non UTF-8 data".to_string(),
+                    ));
+                }
+                start += *length as usize;
+            }
         }
         Ok(to_read)
     }
